@@ -4,11 +4,13 @@
    comments and custom records.  Proved for every string, level and version: the outcome is a line or an error of the
    gfapy hierarchy, never a foreign exception; the one place where the implementation indexes a class table with an
    unchecked key (the datatype of a predefined tag) is covered by a fact about the regenerated tables that is proved
-   by evaluation.  All model functions are structurally recursive: construction terminates.  The graph-level entry
-   points (Gfa, add_line, from_file, lookups, removals, renames, get/set/validate) are decided by the exhaustive and
-   mutation-driven oracle with a watchdog (harness/props/c07.py), not proved. *)
+   by evaluation.  All model functions are structurally recursive: construction terminates.  For the operations of the
+   graph model (add_line, rm, rename of Model/Graph.v, compared with gfapy on generated histories by C02/C05/C08/C09):
+   every operation on every state ends in a state or a gfapy error; the only other outcome is RecursionError of a
+   removal whose checked cascade runs out of fuel.  The remaining entry points (from_file, lookups, get/set/validate,
+   str) are decided by the exhaustive and mutation-driven oracle with a watchdog (harness/props/c07.py), not proved. *)
 From Coq Require Import List String Ascii ZArith Bool.
-From GfaV Require Import Base.Py Model.Codec Model.Line Model.Doc Proofs.NoForeignP.
+From GfaV Require Import Base.Py Model.Codec Model.Line Model.Doc Model.Graph Proofs.NoForeignP Proofs.GraphErrorsP.
 Import ListNotations.
 Open Scope string_scope.
 
@@ -21,6 +23,20 @@ Theorem C07_document_construction_raises_only_gfapy_errors : forall O vlevel ver
   is_foreign (parse_doc O vlevel version text) = false.
 Proof. exact parse_doc_no_foreign. Qed.
 Print Assumptions C07_document_construction_raises_only_gfapy_errors.
+
+(* the graph operations: additions and renames end in a state or a gfapy error; removals may in addition exhaust the
+   fuel of the checked cascade *)
+Theorem C07_additions_raise_only_gfapy_errors : forall O s t, is_foreign (add_line O s t) = false.
+Proof. exact add_line_nf. Qed.
+Print Assumptions C07_additions_raise_only_gfapy_errors.
+
+Theorem C07_renames_raise_only_gfapy_errors : forall s a b, is_foreign (rename s a b) = false.
+Proof. exact rename_nf. Qed.
+Print Assumptions C07_renames_raise_only_gfapy_errors.
+
+Theorem C07_operations_errors : forall O s o e, step O s o = Err e -> (exists g, e = G g) \/ e = Foreign RecursionError.
+Proof. exact step_errors. Qed.
+Print Assumptions C07_operations_errors.
 
 (* the table fact the proof rests on: every predefined tag of every record class has a datatype *)
 Theorem C07_predefined_tags_have_datatypes : forallb good_class all_classes = true.
